@@ -74,7 +74,7 @@ func c15model(c *Ctx, ruleCount, ruleType, ruleShape string) {
 		c.Unk(ruleCount, "geom#similar-model", token.NoPos, "geometry types do not resolve")
 		return
 	}
-	m.it.maxDepth = 12
+	m.it.maxDepth = 48
 	b := &simBuilder{m: m, c: c, mpT: c.P.NamedType("geom", "MultiPoint"), gcT: c.P.NamedType("geom", "GeometryCollection"), ring: m.polyT.Underlying().(*types.Slice).Elem()}
 	pkg := c.P.Pkg("geom")
 	// the comparison stub: lowest-level tolerance test present in the package
